@@ -5,7 +5,7 @@
           reversed in place through the returned references
           7 concat (p = M, extra = the M elements of the right operand)
           8 remove(p)  9 swap_remove(p)  10 remove_unchecked(p)  11 swap_remove_unchecked(p)
-     kind 0 Tz (size 0, tracked, all identities 0)  1 u8  2 u64  3 [u64;3]  4 Tr (size 8, tracked)
+     kind 0 Tz (size 0, tracked, all identities 0)  1 u8  2 u64  3 [u64;3]  4 Tr (size 8, tracked)  5 Tb (size 1, tracked)
    observables: status (0 ok | 1 bounds panic | 2 other panic | 8 does not compile | 9 bad access)
      ok: the parts of the result (see enc_* below), then for every status < 8 the sorted
      identities whose destructor ran DURING the operation (tracked kinds only: [count; ids]).
@@ -14,9 +14,9 @@ From GA Require Import Base Codec SeqOps.
 Local Open Scope Z_scope.
 
 Definition sz_of (kind : Z) : Z :=
-  if kind =? 0 then 0 else if kind =? 1 then 1 else if kind =? 2 then 8 else if kind =? 3 then 24 else 8.
+  if kind =? 0 then 0 else if (kind =? 1) || (kind =? 5) then 1 else if kind =? 2 then 8 else if kind =? 3 then 24 else 8.
 
-Definition tracked (kind : Z) : bool := (kind =? 0) || (kind =? 4).
+Definition tracked (kind : Z) : bool := (kind =? 0) || (kind =? 4) || (kind =? 5).
 
 Definition drops_of (e : list ev) : list Z :=
   sortZ (flat_map (fun x => match x with EDrop i => [i] | _ => [] end) e).
